@@ -144,14 +144,18 @@ def rebuild_topology(top, skip_bond=None):
 
 
 def reimage_step(t, op):
-    """one re-imaging call on the trajectory as it is now; returns (step record, trajectory to continue with)"""
+    """one re-imaging call on the trajectory as it is now (all its frames); returns (step record, trajectory to
+    continue with).  The state AFTER the call is read from the object that was supposed to change: the receiver
+    itself for inplace=True, the returned trajectory otherwise."""
     n = t.n_atoms
+    nf = t.n_frames
     top = t.topology
     st = {"op": op["op"], "inplace": bool(op["inplace"]), "make_whole": bool(op.get("make_whole", True)), "n_atoms": n,
           "bonds_now": [[a.index, b.index] for a, b in top.bonds],
-          "before": t.xyz[0].astype(np.float64).tolist()}
-    before = {"xyz": t.xyz.copy(), "ul": t.unitcell_lengths.copy(), "ua": t.unitcell_angles.copy(), "time": t.time.copy()}
-    box, K = exact_box(np.asarray(t.unitcell_vectors, dtype=np.float32)[0])
+          "before": [t.xyz[f].astype(np.float64).tolist() for f in range(nf)],
+          "xyz_flags": {"c_contiguous": bool(t.xyz.flags["C_CONTIGUOUS"]), "owndata": bool(t.xyz.flags["OWNDATA"])}}
+    before = {"xyz": np.array(t.xyz, copy=True), "ul": t.unitcell_lengths.copy(), "ua": t.unitcell_angles.copy(), "time": t.time.copy()}
+    boxes = np.asarray(t.unitcell_vectors, dtype=np.float32).copy()
     pairs = np.array(list(itertools.combinations(range(n), 2)), dtype=int).reshape(-1, 2)
     d_before = md.compute_distances(t, pairs, periodic=True) if len(pairs) else None
     mols = [sorted(a.index for a in mol) for mol in top.find_molecules()]
@@ -167,24 +171,30 @@ def reimage_step(t, op):
         kw["other_molecules"] = [[top.atom(a) for a in m] for m in st["others_used"]]
         kw["make_whole"] = st["make_whole"]
         res = t.image_molecules(**kw)
+    target = t if st["inplace"] else res
     st["returned_is_self"] = res is t
-    st["orig_xyz_same"] = bool(np.array_equal(t.xyz.view(np.uint32), before["xyz"].view(np.uint32)))
+    st["orig_xyz_same"] = bool(np.array_equal(np.ascontiguousarray(t.xyz).view(np.uint32), np.ascontiguousarray(before["xyz"]).view(np.uint32)))
     st["orig_cell_same"] = bool(np.array_equal(t.unitcell_lengths, before["ul"]) and np.array_equal(t.unitcell_angles, before["ua"]))
     st["orig_time_same"] = bool(np.array_equal(t.time, before["time"]))
     st["res_cell_same"] = bool(np.array_equal(res.unitcell_lengths, before["ul"]) and np.array_equal(res.unitcell_angles, before["ua"]))
     st["res_time_same"] = bool(np.array_equal(res.time, before["time"]))
     st["shares_memory"] = bool(np.shares_memory(res.xyz, t.xyz))
-    fr = {"box": box, "K": K, "new": res.xyz[0].astype(np.float64).tolist()}
-    if d_before is not None:
-        fr["dist_change"] = float(np.max(np.abs(md.compute_distances(res, pairs, periodic=True)[0] - d_before[0])))
+    d_after = md.compute_distances(target, pairs, periodic=True) if len(pairs) else None
     bonds = np.array(st["bonds_now"], dtype=int).reshape(-1, 2)
-    if len(bonds):
-        dp = md.compute_distances(res, bonds, periodic=False)[0]
-        dm = md.compute_distances(res, bonds, periodic=True)[0]
-        k = int(np.argmax(dp - dm))
-        fr["bond_plain_minus_mic"] = float(dp[k] - dm[k])
-        fr["worst_bond"] = bonds[k].tolist()
-    st["frames"] = [fr]
+    frames = []
+    for f in range(nf):
+        box, K = exact_box(boxes[f])
+        fr = {"box": box, "K": K, "new": np.asarray(target.xyz[f], dtype=np.float64).tolist()}
+        if d_before is not None:
+            fr["dist_change"] = float(np.max(np.abs(d_after[f] - d_before[f])))
+        if len(bonds):
+            dp = md.compute_distances(target[f], bonds, periodic=False)[0]
+            dm = md.compute_distances(target[f], bonds, periodic=True)[0]
+            k = int(np.argmax(dp - dm))
+            fr["bond_plain_minus_mic"] = float(dp[k] - dm[k])
+            fr["worst_bond"] = bonds[k].tolist()
+        frames.append(fr)
+    st["frames"] = frames
     return st, (res if (op.get("adopt") or st["inplace"]) else t)
 
 
@@ -213,10 +223,20 @@ def run_history(case):
                 a2 = [top2.add_atom("X%d" % k, md.element.carbon, top2.add_residue("S", ch)) for k in range(len(op["xyz"]))]
                 for a, b in op["bonds"]:
                     top2.add_bond(a2[a], a2[b])
-                t2 = md.Trajectory((np.array([op["xyz"]], dtype=np.float64) / G).astype(np.float32), top2, time=t.time.copy())
+                t2 = md.Trajectory(np.repeat((np.array([op["xyz"]], dtype=np.float64) / G).astype(np.float32), t.n_frames, axis=0),
+                                   top2, time=t.time.copy())
                 t2.unitcell_lengths = t.unitcell_lengths.copy()
                 t2.unitcell_angles = t.unitcell_angles.copy()
                 t = t.stack(t2)
+            elif kind == "slice":          # frames; copy=False hands out views of the coordinate array
+                t = t.slice(slice(op["start"], op["stop"], op["step"]), copy=bool(op["copy"]))
+            elif kind == "set_xyz":        # coordinates assigned by the user in another memory layout / dtype
+                if op["how"] == "fortran":
+                    t.xyz = np.asfortranarray(t.xyz)
+                elif op["how"] == "float64":
+                    t.xyz = t.xyz.astype(np.float64)
+                else:
+                    t.xyz = np.repeat(t.xyz, 2, axis=0)[::2]
             else:
                 raise KeyError(kind)
     except Exception as e:  # noqa: BLE001
